@@ -50,7 +50,10 @@ CHECKS = {
             "and requires a call-compatible signature (1200+ obligations, exhaustive), checks the routing structure of "
             "__torch_function__ (guarded NotImplementedError, lookup by name on the receiving class, operand swap), and "
             "PROVES by term rewriting that every reflected one-liner and every operator-second handler computes "
-            "f(other, self, alpha) with the right order, sign, transposes and alpha placement for all operand values. "
+            "f(other, self, alpha) with the right order, sign, transposes and alpha placement for all operand values; "
+            "(T6) with A.solve(X) = A^-1 X as a primitive, every evaluable solve_triangular definition returns A^-1 R "
+            "for left=True and R A^-1 for left=False, or raises; (T7) a unary elementwise map applied factor by factor "
+            "to a Kronecker-structured operator is a multiplicative function (abs, sqrt, inverse ...), never exp/log. "
             "NOT decided: that each first-operand handler's value equals torch on the dense tensor (numerical).",
             TRUST + "; operators' +, @, mul are true sum/product/elementwise product (C01/C02).",
             "DESIGN.md section 3, C15"),
